@@ -2359,7 +2359,8 @@ sexp sexp_apply (sexp ctx, sexp proc, sexp args) {
 #if SEXP_USE_UTF8_STRINGS
     } else if (i >= 0x80) {
       tmp1 = sexp_read_utf8_char(ctx, _ARG1, i);
-      sexp_push_utf8_char(ctx, sexp_unbox_character(tmp1), _ARG1);
+      if (!sexp_exceptionp(tmp1))
+        sexp_push_utf8_char(ctx, sexp_unbox_character(tmp1), _ARG1);
       _ARG1 = tmp1;
 #endif
     } else {
